@@ -59,3 +59,132 @@ func checkStatementFlagsUntouched(p *Prog, r *Result, si *syntaxInfo, rule strin
 	}
 	return n
 }
+
+// R04l: parentheses inside `[[ ]]` group `&&` and `||`; they are redundant around the whole expression and around a
+// single test, not around a chain that is the operand of `!` or of another operator: `[[ ! (a && b) ]]` is not
+// `[[ ! a && b ]]`. A simplifier function that takes the inside of a *ParenTest is therefore either applied to the root
+// of a test clause only (every call passes TestClause.X), or looks at the operator of what it unwraps (its body names
+// both AndTest and OrTest).
+func checkTestParensUnwrappedAtRoot(p *Prog, r *Result, si *syntaxInfo, rule string) int {
+	info := si.pkg.TypesInfo
+	n := 0
+	for _, fd := range p.AllFuncDecls("syntax") {
+		if fd.Body == nil || !strings.HasSuffix(p.Fset.Position(fd.Pos()).Filename, "/simplify.go") {
+			continue
+		}
+		// does the function take the inside of a *ParenTest?
+		unwraps := token.NoPos
+		parenVars := map[types.Object]bool{}
+		ast.Inspect(fd.Body, func(m ast.Node) bool {
+			switch x := m.(type) {
+			case *ast.AssignStmt:
+				for i, rhs := range x.Rhs {
+					if ta, ok := ast.Unparen(rhs).(*ast.TypeAssertExpr); ok && ta.Type != nil && typeName(derefType(info.TypeOf(ta.Type))) == "ParenTest" && i < len(x.Lhs) {
+						if id, ok := x.Lhs[i].(*ast.Ident); ok {
+							parenVars[info.ObjectOf(id)] = true
+						}
+					}
+				}
+			case *ast.CaseClause:
+				for _, e := range x.List {
+					if typeName(derefType(info.TypeOf(e))) == "ParenTest" {
+						if o := info.Implicits[x]; o != nil {
+							parenVars[o] = true
+						}
+					}
+				}
+			}
+			return true
+		})
+		if len(parenVars) == 0 {
+			continue
+		}
+		isInside := func(e ast.Expr) bool {
+			se, ok := ast.Unparen(e).(*ast.SelectorExpr)
+			if !ok || se.Sel.Name != "X" {
+				return false
+			}
+			id, ok := ast.Unparen(se.X).(*ast.Ident)
+			return ok && parenVars[info.ObjectOf(id)]
+		}
+		// taken out: returned, stored somewhere else, or put into a new node (handing it to another function or
+		// storing back into the same field is not)
+		ast.Inspect(fd.Body, func(m ast.Node) bool {
+			switch x := m.(type) {
+			case *ast.ReturnStmt:
+				for _, e := range x.Results {
+					if isInside(e) && unwraps == token.NoPos {
+						unwraps = e.Pos()
+					}
+				}
+			case *ast.AssignStmt:
+				for i, e := range x.Rhs {
+					if isInside(e) && i < len(x.Lhs) && !isInside(x.Lhs[i]) && unwraps == token.NoPos {
+						unwraps = e.Pos()
+					}
+				}
+			case *ast.KeyValueExpr:
+				if isInside(x.Value) && unwraps == token.NoPos {
+					unwraps = x.Value.Pos()
+				}
+			}
+			return true
+		})
+		if unwraps == token.NoPos {
+			continue
+		}
+		n++
+		key := funcKey("syntax", fd) + "#test parentheses are removed at the root, or with a look at the operator inside"
+		self, _ := info.Defs[fd.Name].(*types.Func)
+		// every call passes TestClause.X
+		calls, rootOnly := 0, true
+		for _, cfd := range p.AllFuncDecls("syntax") {
+			if cfd.Body == nil {
+				continue
+			}
+			ast.Inspect(cfd.Body, func(q ast.Node) bool {
+				c, ok := q.(*ast.CallExpr)
+				if !ok || calleeOf(info, c) != self || len(c.Args) == 0 {
+					return true
+				}
+				if cfd == fd {
+					return true // recursion on what it already holds
+				}
+				calls++
+				arg, ok := ast.Unparen(c.Args[0]).(*ast.SelectorExpr)
+				if !ok || arg.Sel.Name != "X" {
+					rootOnly = false
+				} else if tn := typeName(derefType(info.TypeOf(arg.X))); tn != "TestClause" && tn != "ParenTest" {
+					// the whole of a [[ ]] clause, or the whole of another pair of parentheses
+					rootOnly = false
+				}
+				return true
+			})
+		}
+		looksAtOp := false
+		and, or := false, false
+		ast.Inspect(fd.Body, func(q ast.Node) bool {
+			if id, ok := q.(*ast.Ident); ok {
+				if c, ok := info.ObjectOf(id).(*types.Const); ok {
+					switch c.Name() {
+					case "AndTest":
+						and = true
+					case "OrTest":
+						or = true
+					}
+				}
+			}
+			return true
+		})
+		looksAtOp = and && or
+		switch {
+		case calls > 0 && rootOnly:
+			r.OK(rule, key, unwraps, fmt.Sprintf("all %d calls pass the X of a TestClause or of a ParenTest: the parentheses are around a whole expression", calls))
+		case looksAtOp:
+			r.OK(rule, key, unwraps, "the function names AndTest and OrTest: it looks at the operator of what it unwraps")
+		default:
+			r.Bad(rule, key, unwraps, "the function takes the inside of a parenthesised test where that test is an operand (of `!`, or of another operator) without looking at whether it is an `&&`/`||` chain: `[[ ! (a && b) ]]` becomes `[[ ! a && b ]]`, which bash groups as `(! a) && b`")
+		}
+	}
+	return n
+}
